@@ -4,6 +4,7 @@ from __future__ import annotations
 import calendar
 import datetime as dt
 import signal
+import zlib
 
 from harness import dtutil as D
 from harness import zones as Z
@@ -11,7 +12,7 @@ from harness import zones as Z
 ID = "C16"
 BACKENDS = ("py", "rs")          # Date.add / DateTime.add run through helpers.add_duration (is_leap of the backend)
 GEN_MODULES = ()
-MIN_THEOREMS = 20
+MIN_THEOREMS = 30
 US = D.US
 DAY = 86400 * US
 EPOCH_ORD = 719163
@@ -22,7 +23,8 @@ RULE = ("Date ops (dnext/dprev/dfirst/dlast/dnth) on every month shape: 16 patte
         "over years 1..9998 with random n <= 54. DateTime ops (tnext/tprev with and without keep_time, tfirst/tlast/tnth) on "
         "naive, fixed-offset and named zones: random wall times 1800..2090, and for 16 zones every day whose midnight (or a "
         "wall time within +-1 h of it) is skipped/repeated (sampled per zone): instances placed on, before and after that day, "
-        "both folds, weekday/n chosen so that the irregular day is the start, the target or on the way. non-trivial = distinct "
+        "both folds, weekday/n chosen so that the irregular day is the start, the target or on the way. The weekday argument is passed as a "
+        "WeekDay member or as a plain int 0..6 (alternating by a checksum of the op). non-trivial = distinct "
         "op that is not a mid-month Date op: month/unit boundary, n at or beyond the count, or zone-aware")
 EXHAUSTIVE = {"quick": False, "thorough": False}
 TRUSTED = [
@@ -330,13 +332,20 @@ def worker_init(backend):
 UNITS = ("month", "quarter", "year")
 
 
+_FORM = [0]
+
+
 def _wd(x):
-    return None if x < 0 else _P["WD"](x)
+    """the weekday argument, as a `WeekDay` member or (every other op, decided by a checksum of the op) as a plain int"""
+    if x < 0:
+        return None
+    return int(x) if _FORM[0] else _P["WD"](x)
 
 
 def impl(op, backend):
     p = _P["p"]
     k = op[0]
+    _FORM[0] = zlib.crc32(repr(op).encode()) & 1
     signal.setitimer(signal.ITIMER_REAL, 5.0)
     try:
         if k[0] == "d":
